@@ -26,7 +26,7 @@ func init() {
 		Doc: "both tuple serialisers write the same separator constant before every component i > 0 (and only there)",
 		Run: ruleKey2})
 	Register(&Rule{ID: "R-KEY-3", Props: []string{"C04", "C06"}, Floor: 1,
-		Doc: "SerializeKey follows the documented normalisation ladder in every abstract world (NULL, strict integer, float, datetime, boolean sharing the integer tag, string, else NULL) — the same ladder CompareCombinedly is checked against (R-CMP-3)",
+		Doc: "SerializeKey follows the documented normalisation ladder in every abstract world (NULL, strict integer, float, datetime, boolean sharing the integer tag, string, else NULL) — the same ladder CompareCombinedly is checked against (R-CMP-3); on the float rung a float without a fractional part (a test f == math.Trunc(f), written out or in a helper func(float64) (int64, bool) that is verified to answer true only then and to return int64(f)) must be written with the key of that integer, and some world must do so: values that compare equal (1.0 = 1) share a bucket",
 		Run: ruleKey3})
 	Register(&Rule{ID: "R-KEY-4", Props: []string{"C04"}, Floor: 7,
 		Doc: "strict mode: SerializeIdenticalKey maps each value type to its own serialiser and the type tags written by the serialisers are pairwise distinct byte strings",
@@ -478,6 +478,7 @@ func ruleKey3(c *Ctx) {
 		return
 	}
 	var bad []string
+	wholeFloat := 0
 	convs := []struct{ conv, extra, want string }{
 		{"value.ToIntegerStrictly", "", "serializeInteger"},
 		{"value.ToFloat", "", "serializeFloat"},
@@ -488,10 +489,12 @@ func ruleKey3(c *Ctx) {
 		it := newInterp(c, w)
 		reached := ""
 		var asked []string
+		var reachedCall ssa.CallInstruction
 		it.OnCall = func(name string, call ssa.CallInstruction, args []absint.Val) {
 			if strings.HasPrefix(name, "lib/query.serialize") {
 				if reached == "" {
 					reached = strings.TrimPrefix(name, "lib/query.")
+					reachedCall = call
 				}
 			}
 			if strings.HasPrefix(name, "lib/value.To") {
@@ -540,10 +543,20 @@ func ruleKey3(c *Ctx) {
 				}
 			}
 		}
+		// the float rung: a float without a fractional part is equal to an integer and shares its key
+		if want == "serializeFloat" && reached == "serializeInteger" && key3IntegerKeyOfWholeFloat(c, reachedCall) {
+			wholeFloat++
+			return
+		}
 		if reached != want && len(bad) < 4 {
 			bad = append(bad, fmt.Sprintf("world {%s}: writes with %s, the ladder prescribes %s (conversions tried: %s)", strings.Join(w.Asked(), " "), reached, want, strings.Join(asked, ",")))
 		}
 	})
+	if err == nil {
+		c.Check(wholeFloat > 0, "lib/query.SerializeKey: a float without a fractional part shares the key of the integer", c.FnPos(fn),
+			fmt.Sprintf("%d abstract worlds on the float rung write the integer key under a test that the float is whole", wholeFloat),
+			"on the float rung no world writes the key of the integer the float is equal to (a serializeInteger call of int64(f), dominated by f == math.Trunc(f) or by a helper that decides it): 1.0 = 1 is TRUE, but GROUP BY / DISTINCT / UNION / PARTITION BY put 1.0 and 1 (0.0, -0.0 and 0) into different buckets")
+	}
 	key := "lib/query.SerializeKey: ladder"
 	if err != nil {
 		c.Unknown(key, c.FnPos(fn), err.Error())
